@@ -170,7 +170,7 @@ class H:
 
     def kani_flags(self, tier):
         f = []
-        on = lambda v: v == 'always' or (v == 'thorough' and tier == 'thorough')
+        on = lambda v: v == 'always' or (v == 'thorough' and tier in ('thorough', 'deep'))
         if not on(self.memsafe):
             f.append('--no-memory-safety-checks')
         if not on(self.reach):
@@ -803,7 +803,25 @@ for _h in HARNESSES:
 PROPS = ['C%02d' % i for i in range(1, 19)]
 
 
+# `deep`: harnesses that were never seen to finish on the unchanged tree within their budget on this box (two symbolic characters
+# through a whole pipeline, both compare operands symbolic).  They are not part of the registered quick/thorough commands, because a
+# harness that runs out of time or memory makes a check exit 2; `./check <ID> --tier deep` runs them on top of the thorough tier.
+DEEP = {
+    'c04_username_mapped_prepare_n2', 'c04_username_preserved_prepare_n2', 'c04_username_mapped_enforce_n2', 'c04_username_preserved_enforce_n2',
+    'c05_opaque_prepare_n2', 'c05_opaque_enforce_n2', 'c06_nickname_prepare_n2', 'c06_nickname_enforce_n2',
+    'c07_compare_opaque_n2', 'c07_compare_nickname_n2', 'c07_compare_username_n2',
+    'c01_nickname_enforce_n2', 'c01_username_mapped_enforce_n2',
+    'c06_nickname_enforce_n1', 'c07_compare_nickname_n1', 'c07_compare_username_n1', 'c08_no_drift_mapped_n1',
+}
+for _h in HARNESSES:
+    if _h.name in DEEP:
+        _h.tiers = ('deep',)
+assert DEEP <= {h.name for h in HARNESSES}
+
+
 def for_prop(prop, tier):
+    if tier == 'deep':
+        return [h for h in HARNESSES if h.prop == prop]
     return [h for h in HARNESSES if h.prop == prop and tier in h.tiers]
 
 
